@@ -513,9 +513,9 @@ theorem asU16_le (n : Nat) : asU16 n ≤ n := Nat.mod_le _ _
 
 def NoPanic {α : Type} (o : Outcome α) : Prop := ∀ w, o ≠ .panic w
 
-theorem rewriteInput_noPanic :
+theorem rewriteInput_noPanic (lv : EditM.LenV) :
     ∀ (ps : List (List Nat → Outcome (List (EditM.Edit Nat)))) (l : List (EditM.P Nat)),
-      (∀ p ∈ ps, ∀ t, NoPanic (p t)) → NoPanic (rewriteInput ps l) := by
+      (∀ p ∈ ps, ∀ t, NoPanic (p t)) → NoPanic (rewriteInput lv ps l) := by
   intro ps
   induction ps with
   | nil => intro l _ w h; simp [rewriteInput] at h
@@ -527,7 +527,7 @@ theorem rewriteInput_noPanic :
     | ok es =>
       rw [hq] at h
       simp only [] at h
-      cases hc : EditM.commit l es with
+      cases hc : EditM.commitV lv l es with
       | none => rw [hc] at h; simp at h
       | some l' =>
         rw [hc] at h
@@ -536,9 +536,9 @@ theorem rewriteInput_noPanic :
     | panic w' => exact h1 w' hq
 
 /-- `rewrite_input` fails only with the input-too-long error when the plugins themselves do not fail -/
-theorem rewriteInput_err :
+theorem rewriteInput_err (lv : EditM.LenV) :
     ∀ (ps : List (List Nat → Outcome (List (EditM.Edit Nat)))) (l : List (EditM.P Nat)),
-      (∀ p ∈ ps, ∀ t, ∃ es, p t = .ok es) → ∀ k, rewriteInput ps l = .err k → k = "TooLong" := by
+      (∀ p ∈ ps, ∀ t, ∃ es, p t = .ok es) → ∀ k, rewriteInput lv ps l = .err k → k = "TooLong" := by
   intro ps
   induction ps with
   | nil => intro l _ k h; simp [rewriteInput] at h
@@ -548,7 +548,7 @@ theorem rewriteInput_err :
     obtain ⟨es, hes⟩ := hp p (List.mem_cons_self ..) (EditM.textOf l)
     rw [hes] at h
     simp only [] at h
-    cases hc : EditM.commit l es with
+    cases hc : EditM.commitV lv l es with
     | none => rw [hc] at h; simp at h; exact h.symm
     | some l' =>
       rw [hc] at h
@@ -1088,7 +1088,9 @@ theorem regexProvide_cand (cfg : Oov.RegexCfg) (buf : Oov.Buf) (o created : Nat)
         have hkl := regexFind_le _ _ _ hk
         simp only [List.length_drop, List.length_take] at hkl
         split at h
-        · cases h
+        · split at h
+          · cases h; intro x hx; cases hx
+          · cases h
         · rename_i hk0
           have hc : CandOk buf.chars.length o (Oov.regexNode cfg o k) :=
             ⟨rfl, by simp only [Oov.regexNode]; omega, by simp only [Oov.regexNode]; omega⟩
@@ -1098,6 +1100,37 @@ theorem regexProvide_cand (cfg : Oov.RegexCfg) (buf : Oov.Buf) (o created : Nat)
           · split at h
             · cases h; intro x hx; cases hx
             · cases h; intro x hx; simp only [List.mem_singleton] at hx; subst hx; exact hc
+
+/-- the repaired regex provider (`skipEmpty`) does not panic at all at a position inside a buffer that has a run
+length per character: the two `cat_continuous_len` reads are in range, the slice start is inside the text, and an
+empty match returns before `CreatedWords::single` is reached -/
+theorem regexProvide_fix_noPanic (cfg : Oov.RegexCfg) (hfix : cfg.skipEmpty = true) (buf : Oov.Buf)
+    (hcont : buf.cont.length = buf.chars.length) (o : Nat) (ho : o < buf.chars.length) (created : Nat)
+    (existing : List Oov.Node) : NoPanic (Oov.regexProvide cfg buf o created existing) := by
+  intro w h
+  unfold Oov.regexProvide at h
+  split at h
+  · rename_i hb
+    unfold Oov.regexAtBoundary at hb
+    split at hb
+    · have h1 : buf.cont[o]? = some buf.cont[o] := List.getElem?_eq_getElem (by omega)
+      have h2 : buf.cont[o - 1]? = some buf.cont[o - 1] := List.getElem?_eq_getElem (by omega)
+      rw [h1, h2] at hb
+      cases hb
+    · cases hb
+  · cases h
+  · unfold Oov.regexCore at h
+    simp only [hfix, ↓reduceIte] at h
+    split at h
+    · omega
+    · split at h
+      · cases h
+      · split at h
+        · cases h
+        · split at h
+          · cases h
+          · cases h
+          · split at h <;> cases h
 
 theorem provideOovs_cand (p : Oov.Provider) (buf : Oov.Buf) (hb : BufOk buf) (o : Nat) (ho : o < buf.chars.length)
     (st st' : Nat × List Oov.Node) (h : Oov.provideOovs p buf o st = .ok st')
